@@ -228,7 +228,7 @@ def run(ctx, res):
     # such single without a limit, and every composition up to 2 members of the connection-level
     # family (duplicates, mixed with ordinary ids, invalid members carrying them), unlimited
     cases += [c for c in singles if c['max'] == 0 and 'lim' not in c and _nonfinite_single(c)]
-    cases += [c for c in nonfinite_cases(jr, 3 if is_deep(ctx) else 2, ('v2', 'loose')) if c['max'] == 0]
+    cases += [c for c in nonfinite_cases(jr, 3 if ctx.tier == 'thorough' else 2, ('v2', 'loose')) if c['max'] == 0]
     # every third of the singles whose limit changes between receipt and result (all of them at
     # depth), alternately through another request's handler and through the attribute
     moving = [dict(c, via=('handler', 'attr')[k % 2])
